@@ -433,6 +433,10 @@ macro_rules! runner {
             self.multis.get_mut(&((s.a - 1) as usize)).expect("mappend: not a composite").append(child);
             Val::U
           }
+          "mretain" => {
+            self.multis.get_mut(&((s.a - 1) as usize)).expect("mretain: not a composite").retain();
+            Val::U
+          }
           "tsched" => {
             use rxrust::scheduler::{NormalReturn, OnceTask, RepeatTask, SubscribeReturn};
             let id = crate::vsched::task_count() as i64 + 1;
@@ -451,7 +455,11 @@ macro_rules! runner {
                   a.0.record(100 + a.1, 'R', Val::I(seq as i64));
                   seq < 2
                 }
-                <$boxsub>::new(sched.schedule(RepeatTask::new(crate::vsched::dur(s.b), rep, (sh.clone(), id)), None))
+                let task = match &s.v {
+                  Val::I(first) => RepeatTask::with_first_tick(crate::vsched::dur(*first), crate::vsched::dur(s.b), rep, (sh.clone(), id)),
+                  _ => RepeatTask::new(crate::vsched::dur(s.b), rep, (sh.clone(), id)),
+                };
+                <$boxsub>::new(sched.schedule(task, None))
               }
               _ => {
                 fn subscribing((sh, id): (Arc<Shared>, i64)) -> SubscribeReturn<FlagSub> {
